@@ -110,6 +110,14 @@ func zzVanillaUpsert(b []byte) (mask byte, entries []zzVEntry, ok bool) {
 	return mask, entries, !r.bad && r.pos == len(b)
 }
 
+func zzBits(m byte) int {
+	n := 0
+	for ; m != 0; m &= m - 1 {
+		n++
+	}
+	return n
+}
+
 func zzActionBit(a UpsertAction) byte {
 	for i, x := range UpsertActions {
 		if x == a {
@@ -146,7 +154,7 @@ func zzUpsertCheck(maxActions, minEntries, maxEntries int) {
 	var mask byte
 	for i := 0; i < nActions; i++ {
 		a := UpsertActions[zz.Choose(len(UpsertActions))]
-		zz.Assume(mask&zzActionBit(a) == 0) // each action at most once
+		// the same action may be listed twice by a caller: it still has one bit and one payload
 		mask |= zzActionBit(a)
 		set = append(set, a)
 	}
@@ -189,7 +197,7 @@ func zzUpsertCheck(maxActions, minEntries, maxEntries int) {
 	// and the proxy's own decoder reads the same packet back to the same values (C04)
 	var back Upsert
 	zz.Assert(back.Decode(&proto.PacketContext{Direction: proto.ClientBound, Protocol: 769}, bytes.NewReader(buf.Bytes())) == nil, "the proxy cannot decode its own player-info update")
-	zz.Assert(len(back.Entries) == nEntries && len(back.ActionSet) == nActions, "the proxy's decoder sees a different action set or entry count")
+	zz.Assert(len(back.Entries) == nEntries && len(back.ActionSet) == zzBits(mask), "the proxy's decoder sees a different action set or entry count")
 	for i, e := range u.Entries {
 		b := back.Entries[i]
 		zz.Assert(b.ProfileID == e.ProfileID, "round trip changed an entry's UUID")
